@@ -27,7 +27,7 @@ def T(text):
 
 def shape(n):
     if n[0] == "T":
-        return "'" + n[1] + "'"
+        return "'" + n[1].replace("\n", "\u2424").replace("\r", "\u240d") + "'"
     return "(" + n[1] + "".join(" " + shape(c) for c in n[2]) + ")"
 
 
@@ -69,7 +69,11 @@ class Gen:
         return T(self.r.choice(["_", "_x", "_foo1"]))
 
     def literal_tok(self):
-        return T(self.r.choice(["1", "42", "0x10", "1_000", "1.5", "2.0e3", '"s"', '"a b"', '"q\\"q"', '"é💣"', '""']))
+        return T(self.r.choice(["1", "42", "0x10", "1_000", "1.5", "2.0e3", '"s"', '"a b"', '"q\\"q"', '"é💣"', '""',
+                                # strings that end in an escaped backslash, hold several escapes, or an escaped quote after a backslash pair
+                                '"\\\\"', '"C:\\\\tmp\\\\"', '"\\\\\\\\"', '"a\\\\\\"b"', '"\\n\\\\"',
+                                # a string over several lines
+                                '"first line\n  second line"']))
 
     def name(self):
         return N("NAME", self.ident())
